@@ -358,15 +358,25 @@ def rootSpansAux : Str → List Char → Str → List Str → Except SpanErr (Li
 /-- `parse_root_bracket_level_text_spans` -/
 def rootSpans (s : Str) : Except SpanErr (List Str) := (rootSpansAux s [] [] []).map (·.map jsTrim)
 
-/-- `unquote_string` -/
+/-- the single left-to-right pass `replace(/\\([\\'"nrt])/g, …)` of `unquote_string`: the escapes that
+`js_string_escape_column_name` writes are undone, every other backslash stays -/
+def unescapeJs : Str → Str
+  | '\\' :: c :: rest =>
+    if c == '\\' || c == '\'' || c == '"' then c :: unescapeJs rest
+    else if c == 'n' then LF :: unescapeJs rest
+    else if c == 'r' then CR :: unescapeJs rest
+    else if c == 't' then '\t' :: unescapeJs rest
+    else '\\' :: unescapeJs (c :: rest)
+  | c :: rest => c :: unescapeJs rest
+  | [] => []
+
+/-- `unquote_string` (after the repair 0237ae6: one pass, control-character escapes included) -/
 def unquoteString (q : Str) : Option Str :=
   if q.length < 2 then none
   else
     let body := (q.drop 1).take (q.length - 2)
-    if q.head? == some '\'' && q.getLast? == some '\'' then
-      some (replaceAll ['\\', '\\'] ['\\'] (body.length + 1) (replaceAll ['\\', '\''] ['\''] (body.length + 1) body))
-    else if q.head? == some '"' && q.getLast? == some '"' then
-      some (replaceAll ['\\', '\\'] ['\\'] (body.length + 1) (replaceAll ['\\', '"'] ['"'] (body.length + 1) body))
+    if (q.head? == some '\'' && q.getLast? == some '\'') || (q.head? == some '"' && q.getLast? == some '"') then
+      some (unescapeJs body)
     else none
 
 def isJsLineTerminator (c : Char) : Bool := c == LF || c == CR || c.toNat == 0x2028 || c.toNat == 0x2029
